@@ -362,7 +362,19 @@ def lck_reset(ctx: Ctx) -> RuleResult:
                   "nodes / constants / prefix of this description leak into the next DAG that is built", sorted(reset))
     # also reset before the description
     before = set()
-    for s in f.node.body:
+
+    def block_of(stmts):
+        if any(x is tr for x in stmts):
+            return stmts
+        for st in stmts:
+            for fld in ("body", "orelse", "finalbody"):
+                v = getattr(st, fld, None)
+                if isinstance(v, list) and v and isinstance(v[0], ast.stmt) and not isinstance(st, (ast.FunctionDef, ast.AsyncFunctionDef, ast.ClassDef)):
+                    got = block_of(v)
+                    if got is not None:
+                        return got
+        return None
+    for s in (block_of(f.node.body) or f.node.body):
         if s is tr:
             break
         if isinstance(s, ast.Assign):
